@@ -14,7 +14,7 @@ import (
 func init() {
 	register(&Prop{
 		ID:          "C18",
-		Decided:     "(1) guarded-by: the mutable shared fields of Stream, the five windows, Watermark, cep.Engine, analyticFieldEngine, ExprBridge, FunctionRegistry, MemoryTableSource and tableStore are accessed under their mutex in all API-reachable code (writes exclusively), no field is accessed both through sync/atomic and plainly, and the lock-acquisition graph is acyclic with no re-acquisition of a held lock; (2) no user sink is invoked, directly or through a function that runs sinks synchronously, while a lock is held; no blocking channel operation without a cancel/timeout/default alternative is performed under a lock; (3) each go statement: blocking loops have a cancellation case, blocking operations have an alternative, WaitGroup.Add precedes the go (or is done by the registered adder), goroutines that can run sinks are joined by Stop; Start's stopped-check and lifecycle.Add are serialised with Stop's flag under startMu; (4) Stop: the CAS on stopped dominates close(done) (idempotent, close-once), teardown order close(done) -> Window.Stop -> dataChan=nil -> waitLifecycle -> cep.Stop -> Flush -> flush delivery -> tables.closeAll, the input channel is never closed, initChan closes are probe-guarded under the window lock; (5) Emit after Stop: every blocking send on the input buffer has a done arm; (6) panic containment: every sink invocation and processItem run under a deferred recover. Also: consumer loops of package stream hand each received item to a function with its own deferred recover (a recover around the loop ends it at the first panic); Process starts the goroutine that Start counted in lifecycle on every path (or took the branch where the condition is false). Also: a mutex acquired in a function that runs under a deferred recover (its own or a synchronous caller's) and held across a call that can run user-supplied code (expr-lang programs, registered functions, callbacks) is released by a deferred Unlock (locks/released-on-recovered-panic): a contained panic cannot leave it locked. Also: the period of every time.NewTicker in the module is shown positive from the code (positive constants, clamps and guards against a positive bound, fields all of whose stores store such values, parameters all of whose arguments are such values; integer division is not positive) — a zero or negative period panics in a goroutine that has no recover (fnsafe/ticker-period-positive). Also: for each of Emit/EmitSync/AddSink/GetStats/TriggerWindow/Stop and for every goroutine the engine starts, every synchronous call chain to user-supplied code that sees rows (expr-lang programs, registered functions' Execute/Add/Result/Apply, custom table sources, sinks) passes a function with a deferred recover (flow/no-panic-escapes); the Stop stages may be carried out by a helper of the same package, whose internal order is then checked too. Also: (*sync.Once).Do is treated as a lock held while its function runs: no sink is invoked, directly or through callees, inside a Once.Do that a public method (Stop) also enters (locks/sink-under-lock).",
+		Decided:     "(1) guarded-by: the mutable shared fields of Stream, the five windows, Watermark, cep.Engine, analyticFieldEngine, ExprBridge, FunctionRegistry, MemoryTableSource and tableStore are accessed under their mutex in all API-reachable code (writes exclusively), no field is accessed both through sync/atomic and plainly, and the lock-acquisition graph is acyclic with no re-acquisition of a held lock; (2) no user sink is invoked, directly or through a function that runs sinks synchronously, while a lock is held; no blocking channel operation without a cancel/timeout/default alternative is performed under a lock (a send into a channel the function made itself and has not yet stored anywhere, executed only while the count of such sends is below cap(ch), has room and is not blocking); (3) each go statement: blocking loops have a cancellation case, blocking operations have an alternative, WaitGroup.Add precedes the go (or is done by the registered adder), goroutines that can run sinks are joined by Stop; Start's stopped-check and lifecycle.Add are serialised with Stop's flag under startMu; (4) Stop: the CAS on stopped dominates close(done) (idempotent, close-once), teardown order close(done) -> Window.Stop -> dataChan=nil -> waitLifecycle -> cep.Stop -> Flush -> flush delivery -> tables.closeAll, the input channel is never closed, initChan closes are probe-guarded under the window lock; (5) Emit after Stop: every blocking send on the input buffer has a done arm; (6) panic containment: every sink invocation and processItem run under a deferred recover. Also: consumer loops of package stream hand each received item to a function with its own deferred recover (a recover around the loop ends it at the first panic); Process starts the goroutine that Start counted in lifecycle on every path (or took the branch where the condition is false). Also: a mutex acquired in a function that runs under a deferred recover (its own or a synchronous caller's) and held across a call that can run user-supplied code (expr-lang programs, registered functions, callbacks) is released by a deferred Unlock (locks/released-on-recovered-panic): a contained panic cannot leave it locked. Also: the period of every time.NewTicker in the module is shown positive from the code (positive constants, clamps and guards against a positive bound, fields all of whose stores store such values, parameters all of whose arguments are such values; integer division is not positive) — a zero or negative period panics in a goroutine that has no recover (fnsafe/ticker-period-positive). Also: for each of Emit/EmitSync/AddSink/GetStats/TriggerWindow/Stop and for every goroutine the engine starts, every synchronous call chain to user-supplied code that sees rows (expr-lang programs, registered functions' Execute/Add/Result/Apply, custom table sources, sinks) passes a function with a deferred recover (flow/no-panic-escapes); the Stop stages may be carried out by a helper of the same package, whose internal order is then checked too. Also: (*sync.Once).Do is treated as a lock held while its function runs: no sink is invoked, directly or through callees, inside a Once.Do that a public method (Stop) also enters (locks/sink-under-lock).",
 		NotDecided:  "absence of data races in general (this is a lockset argument over a type-based lock abstraction, not a happens-before proof), bounded Stop latency, goroutine counts, the behaviour of the grace timeout, window trigger goroutines and Watermark.updateLoop being cancelled but not joined by Stop (they do not run sinks).",
 		Assumptions: []string{"lock identity is (struct type, mutex field): two objects of one type are not distinguished"},
 		Run:         runC18,
